@@ -233,6 +233,33 @@ def _dataset_layout(chk, rule="MIRROR.state.stack.dataset_layout"):
                   "is projected column by column on the wrong features")
 
 
+def _unstack_order(chk, rule="MIRROR.state.stack.order"):
+    """xarray's unstack returns every un-stacked dimension with its labels SORTED; Stacker.transform compares the labels of
+    new data with the fitted ones in order.  Whatever the inverse maps return must therefore carry the feature coordinates
+    in the fitted order again (a reindex / sel by the recorded coordinates after un-stacking) - otherwise a reconstruction
+    of data with a descending or unsorted coordinate (latitude from north to south) cannot be handed back to transform."""
+    pm = chk.pm
+    st = pm.cls("xeofs.preprocessing.stacker.Stacker")
+    from .common import class_closure
+    for mname in ("inverse_transform_data", "inverse_transform_components"):
+        m = st.methods.get(mname)
+        chk.require(m is not None, f"Stacker.{mname} vanished")
+        ok = False
+        node = m.node
+        for g in class_closure(pm, st, m):
+            gf = FuncFacts.of(g)
+            for c in calls_in(g):
+                if isinstance(c.func, ast.Attribute) and c.func.attr in ("reindex", "sel", "reindex_like", "sortby", "isel"):
+                    args = list(c.args) + [k.value for k in c.keywords]
+                    vals = [v for a in args for v in (a.values if isinstance(a, ast.Dict) else [a])]
+                    if any(p.atom.kind == "selfattr" and p.atom.name == "self.coords_in" for v in vals for p in gf.paths(v, spine_only=False)):
+                        ok = True
+                        node = c
+        chk.check(ok, rule, m, node, construct=f"{mname}: feature coordinates come back in the fitted order",
+                  why=f"Stacker.{mname} un-stacks (labels come back sorted) and never restores the order of the coordinates recorded at fit: for data fitted with a descending / "
+                      "unsorted feature coordinate, inverse_transform returns it ascending and transform() refuses that very reconstruction ('different coordinates')")
+
+
 def _stacker(chk):
     pm = chk.pm
     st = pm.cls("xeofs.preprocessing.stacker.Stacker")
@@ -314,6 +341,7 @@ def _stacker(chk):
               construct="fit records {sample_name: sample_dims, feature_name: feature_dims}", why="dims_mapping no longer records which original dimensions each stacked name stands for")
     _stack_transform_dims(chk)
     _unstack_guarded(chk)
+    _unstack_order(chk)
     _dataset_layout(chk)
     # ... and only after the labels along every feature dimension have been compared IN ORDER with the recorded ones
     from .common import ordered_label_comparison
